@@ -42,14 +42,14 @@ def handler(run):
                     d = q.fields["_data"]
                     ids, inb = lib.idx_vars(f"nm{q.oid}_", d.shape)
                     pf.append(z3.ForAll(ids, z3.Implies(z3.And(*inb), d.elem(ids) != -128)))
-            OC.compare(run, E, r, "C05/codes-above-int8-min", tag, inst, res[1], ref[1], cs["rel"], rp, hyps_extra=pf)
+            OC.compare(run, E, r, "C05/codes-above-int8-min", tag, inst, res[1], ref[1], cs["rel"], rp, hyps_extra=pf, dq=h.res_deq)
             if inst["qtype"] == "qint8":
-                OC.compare(run, E, r, "C05/any-code", tag, inst, res[1], ref[1], cs["rel"], rp)
+                OC.compare(run, E, r, "C05/any-code", tag, inst, res[1], ref[1], cs["rel"], rp, dq=h.res_deq)
         elif cs["pos"]:
             pf = scale_positive_facts(E, h)
-            OC.compare(run, E, r, "C05/positive-scales", tag, inst, res[1], ref[1], cs["rel"], rp, hyps_extra=pf)
+            OC.compare(run, E, r, "C05/positive-scales", tag, inst, res[1], ref[1], cs["rel"], rp, hyps_extra=pf, dq=h.res_deq)
         else:
-            OC.compare(run, E, r, "C05", tag, inst, res[1], ref[1], cs["rel"], rp)
+            OC.compare(run, E, r, "C05", tag, inst, res[1], ref[1], cs["rel"], rp, dq=h.res_deq)
         # the ops that work on the codes (relu, lt) need positive scales: "all scales are positive" must be preserved by every op
         outs = res[1] if isinstance(res[1], (list, tuple)) else [res[1]]
         pf = scale_positive_facts(E, h)
